@@ -43,6 +43,7 @@ type BedOpts struct {
 	MaxTTL           int
 	ECS              bool
 	IpMarker         string // content of the ip marker file ("" = none)
+	Redis            string // address of a redis server for the second-level cache ("" = none)
 	Limiter          string // yaml block under "limiter:" ("" = none)
 	TcpMaxConc       int
 	ClientAddrHeader string
@@ -264,8 +265,11 @@ func newBedOnce(c *Ctx, name string, o BedOpts) (*Bed, error) {
 	}
 	b.Metrics = fmt.Sprintf("127.0.0.1:%d", ports[len(o.Listeners)])
 	fmt.Fprintf(&y, "metrics:\n  addr: \"%s\"\n", b.Metrics)
-	if o.MemSize > 0 || o.IpMarker != "" {
+	if o.MemSize > 0 || o.IpMarker != "" || o.Redis != "" {
 		y.WriteString("cache:\n")
+		if o.Redis != "" {
+			fmt.Fprintf(&y, "  redis: \"redis://%s\"\n", o.Redis)
+		}
 		if o.MemSize > 0 {
 			fmt.Fprintf(&y, "  mem_size: %d\n", o.MemSize)
 		}
